@@ -107,6 +107,18 @@ def location_spelling_bounded(ctx):
                        {"inferred_root": str(inferred), "absolute_only": sorted(map(str, (abs_run - rel_run).keys())),
                         "relative_only": sorted(map(str, (rel_run - abs_run).keys())),
                         "directory_baseline": sorted(map(str, results['plain'].keys()))})
+        # (c) project-root detection: every spelling of a target inside the project detects the same root
+        from src.cli.utils import get_or_detect_project_root
+        real_root = os.path.realpath(root)
+        os.chdir(os.path.join(root, "src"))
+        spellings = [pathlib.Path(root) / "src" / "a.py", pathlib.Path("a.py"), pathlib.Path("pkg/b.py"), pathlib.Path("."),
+                     pathlib.Path(root) / "src" / "pkg", pathlib.Path("../top.py"), pathlib.Path("../src/generated/g.py")]
+        for sp in spellings:
+            det = get_or_detect_project_root([sp], None)
+            cases += 1
+            if os.path.realpath(str(det)) != real_root or not os.path.isabs(str(det)):
+                return bad("project-root detection depends on how the target is spelled",
+                           {"cwd": "proj/src", "target": str(sp), "detected": str(det), "expected": real_root})
     except BaseException as e:  # noqa
         import traceback
         return [dict(name=name, kind="bounded", verdict="unknown", carries=True, tool="native differential runs", cases=cases,
